@@ -42,6 +42,7 @@ type KVSpec struct {
 	Exp   int      `json:"exp"` // 0 none, 1 past, 2 future
 	Str   string   `json:"str,omitempty"`
 	Items []string `json:"items,omitempty"` // hex
+	Group string   `json:"group,omitempty"` // Type 15 (stream): consumer group name ("" none)
 }
 
 type Pre struct {
@@ -130,6 +131,9 @@ func (c *Case) TargetKVs() []KV {
 	for i := range kvs {
 		kvs[i].Key = c.TKey(kvs[i].Key)
 		kvs[i].DB = c.TDBOf(kvs[i].DB)
+		if kvs[i].Type == 15 {
+			kvs[i].Ops = SmallStreamG(string(kvs[i].Key), "field", c.KVs[i].Group).Ops // the commands name the key
+		}
 	}
 	return kvs
 }
@@ -190,6 +194,10 @@ func (c *Case) KVList() []KV {
 		kv := KV{DB: k.DB, Key: vfutil.UnHex(k.Key), Type: byte(k.Type), ExpireAt: ExpireAtOf(k.Exp), Str: vfutil.UnHex(k.Str)}
 		for _, it := range k.Items {
 			kv.Items = append(kv.Items, vfutil.UnHex(it))
+		}
+		if k.Type == 15 {
+			g := SmallStreamG(string(kv.Key), "field", k.Group)
+			kv.Raw, kv.Ops, kv.Str = g.Raw, g.Ops, nil
 		}
 		out = append(out, kv)
 	}
@@ -819,6 +827,11 @@ func genKV(r *vfutil.Rand, i int, dbs int) KVSpec {
 		key = "" // the empty string is a valid Redis key
 	}
 	kv := KVSpec{Key: vfutil.HexS(key), Type: vfutil.Pick(r, []int{0, 0, 1, 2, 3, 4, 4, 4}), Exp: vfutil.Pick(r, []int{0, 0, 1, 2})}
+	if r.Chance(1, 12) {
+		// a stream, mostly with a consumer group (XGROUP CREATE names the key as its SECOND argument)
+		kv.Type, kv.Group = 15, vfutil.Pick(r, []string{"g", "g", ""})
+		return kv
+	}
 	item := func() string {
 		if r.Chance(1, 5) {
 			return vfutil.Hex(r.Bytes(r.Range(1, 12)))
@@ -853,6 +866,9 @@ func genKV(r *vfutil.Rand, i int, dbs int) KVSpec {
 var Kinds = []string{"string", "list", "hash", "set", "zset", "restored"}
 
 func kindOf(t int) string {
+	if t == 15 {
+		return "list" // the double has no stream type of its own: any other existing key
+	}
 	return []string{"string", "list", "set", "zset", "hash"}[t]
 }
 
@@ -1028,13 +1044,15 @@ func ExhaustiveTwins(mode string) []*Case {
 func ExhaustiveHashTag(mode string) []*Case {
 	var out []*Case
 	for _, key := range []string{"{tag}key", "ke{y}", "}k{", "{}", "}{"} {
-		for _, ty := range []int{0, 1, 4} {
+		for _, ty := range []int{0, 1, 4, 15} {
 			for _, pol := range []string{"replace", "ignore", "error"} {
 				for _, restore := range []bool{false, true} {
 					for pm := 0; pm < 3; pm++ {
 						kv := KVSpec{Key: vfutil.HexS(key), Type: ty, Exp: 2}
 						thr := 0
 						switch ty {
+						case 15:
+							kv.Group = "g"
 						case 0:
 							kv.Str = vfutil.HexS("val")
 						case 1:
